@@ -7,7 +7,9 @@ Model/C11RoundTrip.v:rt_pkg P (import, slice resolution, export).  Streams: corp
 generator, the primitive / external-module parameter space, twins (several instances of one external module / primitive
 whose parameter values are equal under Python's == but different in the package: the importer must not let an earlier
 instance decide a later one; coverage classes measured by the driver, fail closed), enumeration tables and names against
-the live functions, pyeq (Model/C11Share.v:py_eq against the live ==).
+the live functions, pyeq (Model/C11Share.v:py_eq against the live ==), history / history_decls (several exports in one
+interpreter over ExternalModule objects MUTATED in between: every returned package must round-trip and declare each external
+module as the object is at that moment - Model/C11History.v, Corr/C11.v:chk_hist; change classes measured, fail closed).
 """
 import json, os, subprocess, itertools, time
 from decimal import Decimal
@@ -537,6 +539,396 @@ def ensure_corr_vo():
                    capture_output=True, text=True)
 
 
+# ------------------------------------------------------------------------------------------ histories (strengthening round 2)
+# Several exports in ONE interpreter over ExternalModule objects that are mutated in between (a port appended / inserted /
+# removed / renamed / resized / redirected / replaced, the list replaced or reversed, name / domain / spicetype / desc /
+# paramtype assigned).  Every returned package must round-trip (chk_c11) and declare each external module as the object IS when
+# the package is produced (Corr/C11.v:chk_hist over Model/C11History.v).  The generator keeps its own copy of the object states
+# (the model's input); the driver reads the live objects' public attributes at every observing step (compared in Coq).
+HIMPORTS = IMPORTS.replace("Hdl21.Corr.C11.", "Hdl21.Corr.C11 Hdl21.Model.C11History.")
+MUT_KINDS = ["append", "insert", "remove", "rename", "width", "dir", "replace", "ports", "reverse", "name", "domain", "spicetype",
+             "desc", "paramtype"]
+EXPOSURES = ["export", "netlist", "decl"]
+# measured change classes (live object state at the previous exposure of the object against its state at this export)
+CHANGE_KINDS = ["ports_longer", "ports_shorter", "port_renamed", "port_width", "port_dir", "port_order", "name", "domain",
+                "spicetype", "desc", "paramtype", "unchanged"]
+HIST_TARGETS = ([f"{c}:after:export" for c in CHANGE_KINDS] + [f"ports_longer:after:{e}" for e in EXPOSURES] +
+                [f"unchanged:after:{e}" for e in EXPOSURES] + ["reused_module", "multi_object", "same_name_objects"])
+
+
+def c_eport(p):
+    return f"{{| ep_name := {cs(p[0])}; ep_width := {cz(p[1])}; ep_dir := {cs(p[2])} |}}"
+
+
+def c_eobj(o):
+    return (f"{{| eo_domain := {cs(o[0])}; eo_name := {cs(o[1])}; eo_ports := {clist(o[2], c_eport)}; "
+            f"eo_spicetype := {cs(o[3])} |}}")
+
+
+def c_mut(op):
+    k = op[0]
+    n = lambda j: f"{int(j)}%nat"
+    if k == "append":
+        return f"(MAppend {c_eport(op[1])})"
+    if k == "insert":
+        return f"(MInsert {n(op[1])} {c_eport(op[2])})"
+    if k == "remove":
+        return f"(MRemove {n(op[1])})"
+    if k == "rename":
+        return f"(MRename {n(op[1])} {cs(op[2])})"
+    if k == "width":
+        return f"(MWidth {n(op[1])} {cz(op[2])})"
+    if k == "dir":
+        return f"(MDir {n(op[1])} {cs(op[2])})"
+    if k == "replace":
+        return f"(MReplace {n(op[1])} {c_eport(op[2])})"
+    if k == "ports":
+        return f"(MPorts {clist(op[1], c_eport)})"
+    if k == "reverse":
+        return "MReverse"
+    if k == "name":
+        return f"(MName {cs(op[1])})"
+    if k == "domain":
+        return f"(MDomain {cs(op[1] or '')})"
+    if k == "spicetype":
+        return f"(MSpice {cs(op[1])})"
+    if k in ("desc", "paramtype"):
+        return "MSilent"
+    raise ValueError(op)
+
+
+def walk_uses(job, si):
+    """the ExternalModule objects of the ExternalModuleCall instances, in the order the exporter's depth-first walk meets them
+    (build_mods adds a module's sub-module instances first: `uses`, then `reuse`, then its external-module instances)"""
+    out, seen = [], set()
+
+    def mod(st, ix):
+        if (st, ix) in seen:
+            return
+        seen.add((st, ix))
+        ms = job["steps"][st][1]["mods"][ix]
+        for u in ms.get("uses", []):
+            mod(st, u)
+        for st2, ix2 in ms.get("reuse", []):
+            mod(st2, ix2)
+        for x in ms["insts"]:
+            out.append(x["ext"])
+    spec = job["steps"][si][1]
+    for t in spec.get("tops") or [len(spec["mods"]) - 1]:
+        mod(si, t)
+    return out
+
+
+def c_hop(job, si):
+    st = job["steps"][si]
+    if st[0] == "mut":
+        return f"HMut {int(st[1])}%nat {c_mut(st[2])}"
+    if st[0] == "decl":
+        return f"HDecl {int(st[1])}%nat"
+    us = clist(walk_uses(job, si), lambda k: f"{int(k)}%nat")
+    return f"{'HExport' if st[0] == 'export' else 'HSilent'} {us}"
+
+
+def c_ext_decl(x):
+    sw = lambda s: f"({cs(s[0])}, {cz(s[1])})"
+    pd = lambda s: f"({cs(s[0])}, {cs(s[1])})"
+    return (f"{{| cx_domain := {cs(x['domain'])}; cx_name := {cs(x['name'])}; cx_sigs := {clist(x['sigs'], sw)}; "
+            f"cx_ports := {clist(x['ports'], pd)}; cx_spicetype := {cs(x['spicetype'])} |}}")
+
+
+def c_hist_case(job, recs):
+    init = [[x.get("domain") or "", x["name"], x["ports"], x.get("spicetype") or "SUBCKT"] for x in job["exts"]]
+    rets, live = [], []
+    for rec in recs:
+        if rec["kind"] == "netlist":          # returns no package: not an observation (its record carries the live object states)
+            continue
+        live.append(clist([o[:4] for o in rec["objs"]], c_eobj))
+        if rec["kind"] == "decl":
+            rets.append("None" if rec["decl"] is None else f"(Some [{c_ext_decl(rec['decl'])}])")
+        else:
+            rets.append("None" if rec["res"] is None else f"(Some {clist(rec['res']['p']['exts'], c_ext_decl)})")
+    ops = clist(range(len(job["steps"])), lambda si: c_hop(job, si))
+    return f"({clist(init, c_eobj)},\n  {ops},\n  [{'; '.join(rets)}],\n  [{'; '.join(live)}])"
+
+
+def fresh_port(r, used):
+    k = 0
+    while f"q{k}" in used:
+        k += 1
+    cands = [f"q{k}"] * 2 + [n for n in ("vnw", "vpw", "sub") if n not in used]
+    return [r.choice(cands), r.choice([1, 1, 1, 2, 4]), r.choice(DIRS)]
+
+
+def gen_mutation(r, st, others):
+    """a mutation of the object state `st` ([domain, name, ports, spicetype]) that keeps it a valid ExternalModule (distinct port
+    names, widths >= 1); returns the op and applies it to st"""
+    ports = st[2]
+    names = [p[0] for p in ports]
+    kinds = ["append", "append", "append", "insert", "replace", "ports", "name", "domain", "spicetype", "desc", "paramtype"]
+    if ports:
+        kinds += ["remove", "rename", "rename", "width", "dir"]
+    if len(ports) > 1:
+        kinds += ["reverse"]
+    k = r.choice(kinds)
+    if k == "append":
+        p = fresh_port(r, names)
+        ports.append(p)
+        return [k, p]
+    if k == "insert":
+        j = r.randint(0, len(ports))
+        p = fresh_port(r, names)
+        ports.insert(j, p)
+        return [k, j, p]
+    if k == "remove":
+        j = r.randrange(len(ports))
+        del ports[j]
+        return [k, j]
+    if k == "rename":
+        j = r.randrange(len(ports))
+        n = fresh_port(r, names)[0]
+        ports[j] = [n, ports[j][1], ports[j][2]]
+        return [k, j, n]
+    if k == "width":
+        j = r.randrange(len(ports))
+        w = r.choice([w for w in (1, 2, 3, 8) if w != ports[j][1]])
+        ports[j] = [ports[j][0], w, ports[j][2]]
+        return [k, j, w]
+    if k == "dir":
+        j = r.randrange(len(ports))
+        d = r.choice([d for d in DIRS if d != ports[j][2]])
+        ports[j] = [ports[j][0], ports[j][1], d]
+        return [k, j, d]
+    if k == "replace":
+        if not ports:
+            p = fresh_port(r, names)
+            ports.append(p)
+            return ["append", p]
+        j = r.randrange(len(ports))
+        p = fresh_port(r, [n for i, n in enumerate(names) if i != j])
+        if r.random() < 0.5:
+            p[0] = names[j]                 # same name, another Signal object
+        ports[j] = p
+        return [k, j, p]
+    if k == "ports":
+        ps = []
+        for _ in range(r.randint(0, 4)):
+            ps.append(fresh_port(r, [p[0] for p in ps]))
+        st[2] = ps
+        return [k, ps]
+    if k == "reverse":
+        ports.reverse()
+        return [k]
+    if k == "name":
+        taken = r.random() < 0.12 and others
+        n = r.choice(others)[1] if taken else st[1] + "v"
+        st[1] = n
+        return [k, n]
+    if k == "domain":
+        d = r.choice([d for d in (None, "lib", "a.b", "pdk2") if (d or "") != st[0]])
+        st[0] = d or ""
+        return [k, d]
+    if k == "spicetype":
+        s_ = r.choice([t for t in SPICETYPES if t != st[3]])
+        st[3] = s_
+        return [k, s_]
+    if k == "desc":
+        return [k, r.choice(["a cell", "", "rev B"])]
+    return [k, r.choice(["dict", "class"]), ["m", "w"]]
+
+
+def history_job(r, k):
+    nx = r.choice([1, 1, 2, 2, 3])
+    exts, state = [], []
+    for e in range(nx):
+        ports = []
+        for _ in range(r.randint(0, 4)):
+            ports.append(fresh_port(r, [p[0] for p in ports]))
+        dom = r.choice([None, "lib", "extlib", "a.b"])
+        same = e > 0 and r.random() < 0.1      # another object with the (domain, name) and the ports of an earlier one
+        x = dict(name=exts[0]["name"] if same else f"cell{e}", domain=exts[0]["domain"] if same else dom,
+                 spicetype=exts[0]["spicetype"] if same else r.choice([None, None, "MOS", "SUBCKT", "DIODE"]),
+                 ports=[list(p) for p in exts[0]["ports"]] if same else ports,
+                 paramtype=r.choice(["dict", "dict", "class"]), fields=["m", "w"], desc=r.choice([None, "text"]))
+        exts.append(x)
+        state.append([x["domain"] or "", x["name"], [list(p) for p in x["ports"]], x["spicetype"] or "SUBCKT"])
+    steps, dirty_since = [], {}          # (step, mod index) -> set of ext ids it (transitively) uses
+    uses_of = {}
+    nobs = r.randint(2, 5)
+    for ob in range(nobs):
+        if ob > 0 or r.random() < 0.2:
+            for _ in range(r.choice([0, 1, 1, 1, 2, 3]) if ob > 0 else 1):
+                e = r.randrange(nx)
+                op = gen_mutation(r, state[e], [s for i, s in enumerate(state) if i != e])
+                steps.append(["mut", e, json.loads(json.dumps(op))])     # a copy: the generator goes on editing its own state
+                for key in [key for key, us in uses_of.items() if e in us]:
+                    del uses_of[key]                    # a module built before the mutation is not exported again
+        u = r.random()
+        si = len(steps)
+        if u < 0.1:
+            steps.append(["decl", r.randrange(nx)])
+            continue
+        mods = []
+        for j in range(r.choice([1, 1, 2, 3])):
+            insts = [dict(name=f"x{q}", kind="ext", ext=r.randrange(nx),
+                          params=[["m", ["int", r.randint(1, 9)]]] + ([["w", P(str(r.randint(1, 99)), "NANO")]] if r.random() < 0.3 else []))
+                     for q in range(r.randint(0 if j else 1, 3))]
+            ms = dict(name=f"H{si}_{j}", insts=insts, uses=[q for q in range(j) if r.random() < 0.6])
+            if uses_of and r.random() < 0.3:
+                ms["reuse"] = [list(r.choice(sorted(uses_of)))]
+            mods.append(ms)
+        spec = dict(mods=mods)
+        if len(mods) > 1 and r.random() < 0.25:
+            spec["tops"] = r.sample(range(len(mods)), r.randint(1, len(mods)))
+        if r.random() < 0.3:
+            spec["domain"] = r.choice(["hist", "a.b"])
+        kind = "export" if u < 0.85 or ob == nobs - 1 else "netlist"
+        if kind == "netlist":
+            spec["fmt"] = r.choice(["spice", "verilog", "spectre"])
+        steps.append([kind, spec])
+        for j, ms in enumerate(mods):
+            us = {x["ext"] for x in ms["insts"]}
+            for q in ms["uses"]:
+                us |= uses_of[(si, q)]
+            for st2, ix2 in ms.get("reuse", []):
+                us |= uses_of[(st2, ix2)]
+            uses_of[(si, j)] = us
+    return dict(source="history", exts=exts, steps=steps, bare=r.random() < 0.15)
+
+
+def history_corpus():
+    """the minimised seeded demonstration (a cell exported, given its well tap, exported again) and relatives"""
+    cell = dict(name="cell3", domain="extlib", ports=[["a", 1, "INPUT"], ["z", 1, "OUTPUT"], ["vss", 1, "NONE"]], paramtype="dict")
+    one = lambda nm, m: dict(mods=[dict(name=nm, insts=[dict(name="i", kind="ext", ext=0, params=[["m", ["int", m]]])], uses=[])], domain="demoB")
+    jobs = [dict(source="history", exts=[cell], steps=[["export", one("First", 1)], ["mut", 0, ["append", ["vnw", 1, "NONE"]]],
+                                                        ["export", one("Second", 2)]])]
+    jobs.append(dict(source="history", exts=[cell], steps=[["netlist", dict(one("First", 1), fmt="spice")], ["mut", 0, ["rename", 2, "gnd"]],
+                                                           ["export", one("Second", 2)], ["mut", 0, ["spicetype", "MOS"]],
+                                                           ["mut", 0, ["name", "cell4"]], ["export", one("Third", 3)]]))
+    jobs.append(dict(source="history", exts=[cell], steps=[["decl", 0], ["mut", 0, ["width", 0, 4]], ["mut", 0, ["dir", 1, "INOUT"]],
+                                                           ["decl", 0], ["export", one("Second", 2)], ["mut", 0, ["desc", "x"]],
+                                                           ["mut", 0, ["paramtype", "class", ["m"]]], ["export", one("Third", 3)]]))
+    return jobs
+
+
+def obj_changes(a, b):
+    """the measured difference of two live object states [domain, name, ports, spicetype, desc, paramtype]"""
+    out = set()
+    pa, pb = a[2], b[2]
+    if len(pb) > len(pa):
+        out.add("ports_longer")
+    if len(pb) < len(pa):
+        out.add("ports_shorter")
+    na, nb = [p[0] for p in pa], [p[0] for p in pb]
+    if len(pa) == len(pb):
+        if sorted(na) != sorted(nb):
+            out.add("port_renamed")
+        elif na != nb:
+            out.add("port_order")
+    wa, wb = dict((p[0], p) for p in pa), dict((p[0], p) for p in pb)
+    for n in set(wa) & set(wb):
+        if wa[n][1] != wb[n][1]:
+            out.add("port_width")
+        if wa[n][2] != wb[n][2]:
+            out.add("port_dir")
+    for i, nm in ((0, "domain"), (1, "name"), (3, "spicetype"), (4, "desc"), (5, "paramtype")):
+        if a[i] != b[i]:
+            out.add(nm)
+    return out or {"unchanged"}
+
+
+def history_classes(job, recs):
+    """coverage classes MEASURED on what the driver reports: for every object a returned export declares, how the live object
+    differs from its state at the previous step that exposed it to the exporter (export / netlist / direct declaration)"""
+    met, last = set(), {}
+    by_step = {rec["step"]: rec for rec in recs}
+    objs_now = None
+    for si, st in enumerate(job["steps"]):
+        if st[0] == "mut":
+            continue
+        rec = by_step.get(si)
+        used = [st[1]] if st[0] == "decl" else sorted(set(walk_uses(job, si)))
+        if st[0] == "export" and rec is not None and rec["res"] is not None:
+            objs = rec["objs"]
+            for k in used:
+                if k in last:
+                    kind0, o0 = last[k]
+                    if o0 is not None:
+                        for c in obj_changes(o0, objs[k]):
+                            met.add(f"{c}:after:{kind0}")
+            if len(used) > 1:
+                met.add("multi_object")
+            if len({(objs[k][0], objs[k][1]) for k in used}) < len(used):
+                met.add("same_name_objects")
+            if any(ms.get("reuse") for ms in st[1]["mods"]):
+                met.add("reused_module")
+        for k in used:
+            last[k] = (st[0], rec["objs"][k] if rec is not None else None)
+    return met
+
+
+def histories(run, seed, quick, replay=None):
+    t0 = time.time()
+    if replay is not None:
+        jobs = [replay["job"]]
+    else:
+        jobs = history_corpus() + [history_job(core.rng(seed, "C11", "history", k), k) for k in range(260 if quick else 2500)]
+    outs = core.run_worker_sharded("c11", jobs, timeout=1800)
+    # (a) every returned package round-trips
+    cases, owner, src_err, refused, netlist_err = [], [], 0, 0, 0
+    hjobs, hrecs = [], []
+    met = {}
+    for ji, o in enumerate(outs):
+        if o["err"] is not None:
+            src_err += 1
+            run.violation(f"C11:history-source:{json.dumps(jobs[ji], sort_keys=True)[:300]}", f"history driver failed: {o['err']}",
+                          dict(kind="source-failed", job=jobs[ji], err=o["err"]), found_input=False)
+            continue
+        for rec in o["hist"]:
+            if rec["kind"] == "netlist":
+                netlist_err += rec["err"] is not None
+            elif rec["kind"] == "export" and rec["res"] is None:
+                refused += 1
+            if rec["res"] is not None:
+                cases.append(rec["res"])
+                owner.append(ji)
+        hjobs.append(ji)
+        hrecs.append(o["hist"])
+        for c in history_classes(jobs[ji], o["hist"]):
+            met[c] = met.get(c, 0) + 1
+    bad = core.coq_eval_cases("C11", "history", IMPORTS, "c11_case", [c_case(r) for r in cases], "run_cases chk_c11", chunk=40)
+    report(run, "history", jobs, cases, owner, bad, src_err)
+    # (b) every returned package declares the objects as they are
+    hbad = core.coq_eval_cases("C11", "history_decls", HIMPORTS, "hist_case", [c_hist_case(jobs[ji], recs) for ji, recs in zip(hjobs, hrecs)],
+                               "run_cases chk_hist", chunk=40)
+    nobs = sum(1 for recs in hrecs for rec in recs if rec["kind"] != "netlist")
+    nontrivial = sum(1 for ji in hjobs if any(st[0] == "mut" for st in jobs[ji]["steps"]))
+    run.stream("history_decls", len(hjobs), nontrivial, observations=nobs, exports_refused=refused, netlists_failed=netlist_err,
+               mutations=sum(1 for ji in hjobs for st in jobs[ji]["steps"] if st[0] == "mut"),
+               history_targets={t: met.get(t, 0) for t in HIST_TARGETS}, history_classes_met=len(met),
+               rule="one evaluation = one history (1..3 ExternalModule objects, 2..5 observing steps: to_proto / h.netlist / "
+                    "export_external_module, mutations between them) run in one interpreter; non-trivial = it has a mutation; "
+                    "classes = <measured change of the live object since the exporter last saw it>:after:<how it saw it>")
+    if replay is None:
+        for t in HIST_TARGETS:
+            if not met.get(t):
+                run.violation(f"C11:coverage:history:{t}", f"generator coverage target missed: no history of class {t}",
+                              dict(kind="coverage", target=t), found_input=False)
+    size = lambda i: len(json.dumps(jobs[hjobs[i]]))
+    ones = [i for i, code in hbad if code == 1]
+    if ones:
+        i = min(ones, key=size)
+        run.violation("C11:history-stale:" + json.dumps(jobs[hjobs[i]], sort_keys=True)[:600],
+                      f"a package returned by to_proto declares an ExternalModule otherwise than the object is at that moment "
+                      f"({len(ones)} failing histories)", dict(kind="impl-violates-spec", job=jobs[hjobs[i]], records=hrecs[i], failing=len(ones)))
+    twos = [i for i, code in hbad if code != 1]
+    if twos:
+        i = min(twos, key=size)
+        run.violation("C11:tie:history:" + json.dumps(jobs[hjobs[i]], sort_keys=True)[:600],
+                      f"model run_hist decl_fresh disagrees with the implementation although every declaration is current ({len(twos)} histories)",
+                      dict(kind="model-differs", job=jobs[hjobs[i]], records=hrecs[i], failing=len(twos)), found_input=False)
+    run.coverage["streams"]["history_decls"]["wall_s"] = round(time.time() - t0, 1)
+
+
 # ------------------------------------------------------------------------------------------ the run
 def run(run, tier, seed, replay=None):
     quick = tier == "quick"
@@ -554,7 +946,7 @@ def run(run, tier, seed, replay=None):
     streams["extmodules"] = [extmod_job(core.rng(seed, "C11", "exts", k), k) for k in range(150 if quick else 3000)]
     streams["twins"] = twins_small_jobs() + [twins_random_job(core.rng(seed, "C11", "twins", k), k) for k in range(150 if quick else 3000)]
     if replay is not None:
-        streams = {"replay": [replay["job"]]}
+        streams = {"replay": [replay["job"]]} if replay["job"].get("source") != "history" else {}
 
     for sname, jobs in streams.items():
         t0 = time.time()
@@ -578,6 +970,8 @@ def run(run, tier, seed, replay=None):
         report(run, sname, jobs, cases, owner, bad, src_err)
         run.coverage["streams"][sname]["wall_s"] = round(time.time() - t0, 1)
 
+    if replay is None or replay["job"].get("source") == "history":
+        histories(run, seed, quick, replay)
     if replay is None:
         t0 = time.time()
         tables(run, seed, quick)
